@@ -198,13 +198,45 @@ VCLAUSE(rule, 20, 12000, 100000, "n is odd, or n > 64, or the interval is shifte
 VCLAUSE(overloads, 30, 8000, 160000, "limits reversed or value list supplied separately")
 {
 	Src& s = c.s;
-	int n  = (int) s.range(1, 64);
+	int n  = s.chance(0.15) ? (int) s.range(65, 400) : (int) s.range(1, 64);
 	double a, b, ratio;
 	gen_interval(s, a, b, ratio);
 	bool rev = s.coin();
 	double A = rev ? b : a, B = rev ? a : b;
 	if(rev)
 		c.nt();
+	if(s.chance(0.25))
+	{
+		// a smooth non-polynomial integrand: the three overloads evaluate the same rule on it (no exactness claim, the sum over the rule is the oracle)
+		double w = s.uniform(0.1, 3), ph = s.uniform(0, 6);
+		double mid0 = 0.5 * (a + b), hw0 = 0.5 * (b - a);
+		auto g = [=](double x) { double t = (x - mid0) / hw0; return std::exp(0.5 * t) * std::cos(w * t + ph) + 2.0; };
+		std::vector<std::vector<double>> rule;
+		std::vector<double> gv;
+		double j1 = 0, j2 = 0, j3 = 0;
+		c.cls("non_polynomial_integrand");
+		VMUST_RETURN("Gauss-Legendre overloads (smooth integrand)", rule = libphysica::Compute_Gauss_Legendre_Roots_and_Weights((unsigned) n, A, B); for(auto& r : rule) gv.push_back(g(r[0])); j1 = libphysica::Integrate_Gauss_Legendre(g, A, B, (unsigned) n);
+					 j2 = libphysica::Integrate_Gauss_Legendre(g, rule); j3 = libphysica::Integrate_Gauss_Legendre(gv, rule));
+		long double sum = 0, mag2 = 0;
+		for(size_t i = 0; i < rule.size(); i++)
+		{
+			sum += (long double) rule[i][1] * gv[i];
+			mag2 += fabsl((long double) rule[i][1] * gv[i]);
+		}
+		double tl = 4 * EPS * (double) mag2 * std::sqrt((double) n + 4);
+		VCLOSE(c, "overload_values_is_weighted_sum", j3, (double) sum, tl, "Integrate_Gauss_Legendre(values,rule) vs the sum of weight*value in long double");
+		VCLOSE(c, "overloads_agree_smooth", j2, j3, tl, "Integrate_Gauss_Legendre(func,rule) vs (values,rule)");
+		VCLOSE(c, "overloads_agree_smooth", j1, j3, tl, "Integrate_Gauss_Legendre(func,a,b,n) vs (values,rule)");
+		// larger length mismatches in either direction
+		std::vector<double> wrong = gv;
+		int dl = (int) s.range(1, 5);
+		if(s.coin() || (int) wrong.size() <= dl)
+			wrong.insert(wrong.end(), (size_t) dl, 1.0);
+		else
+			wrong.resize(wrong.size() - (size_t) dl);
+		VMUST_EXIT("Integrate_Gauss_Legendre with " << wrong.size() << " values for a rule of " << rule.size(), double v = libphysica::Integrate_Gauss_Legendre(wrong, rule); (void) v);
+		return;
+	}
 	// a polynomial of degree <= 2n-1 in the mapped variable (exact for the rule), plus a smooth non-polynomial term
 	int deg = (int) s.range(0, std::min(2 * n - 1, 9));
 	std::vector<double> cf((size_t) deg + 1);
@@ -234,7 +266,10 @@ VCLAUSE(overloads, 30, 8000, 160000, "limits reversed or value list supplied sep
 	double tol = EPS * (double) mag * std::fabs(B - A) * (1024 + 64 * (1 + ratio));
 	VCLOSE(c, "overload_func_limits", i1, (double) exact, tol, "Integrate_Gauss_Legendre(func,a,b,n) vs the exact integral of a polynomial of degree " << deg << " <= 2n-1");
 	VCLOSE(c, "overloads_agree", i2, i1, 4 * EPS * (double) mag * std::fabs(B - A), "Integrate_Gauss_Legendre(func,rule) vs (func,a,b,n)");
-	VCHECK(same_bits(i3, i2), "Integrate_Gauss_Legendre(values,rule)=" << i3 << " differs from (func,rule)=" << i2);
+	// "the same value for the same rule": to rounding (bit-identical results are counted)
+	VCLOSE(c, "overloads_agree", i3, i2, 4 * EPS * (double) mag * std::fabs(B - A), "Integrate_Gauss_Legendre(values,rule) vs (func,rule)");
+	if(same_bits(i3, i2))
+		c.cls("overloads_bit_identical");
 	VCLOSE(c, "orientation", i4, -i1, tol, "exchanging the limits must negate the result");
 	if(s.chance(0.2))
 	{
